@@ -7,6 +7,7 @@
 package wsx
 
 import (
+	"verifharness/internal/core"
 	"errors"
 	"net"
 	"sync"
@@ -205,7 +206,7 @@ type FListener struct {
 }
 
 func NewFListener() (*FListener, error) {
-	l, err := net.Listen("tcp4", "127.0.0.1:0")
+	l, err := core.ListenLoopback("tcp4")
 	if err != nil {
 		return nil, err
 	}
